@@ -26,7 +26,7 @@ def gen_path(rng, targets, kind=None):
         return rng.choice(["URL:http://www.example.org/", "URL:ftp://host/path", "/URL:http://h/x"])
     if kind == "rel":
         return rng.choice(["lindner", "1/Moo/Cheesy", "sub/inner.txt"])
-    return rng.choice(["/elsewhere/a", "/1/Moo", "/x y", "/"]) if kind == "abs" else "/other/%d" % rng.randrange(50)
+    return rng.choice(["/elsewhere/a", "/1/Moo", "/x y", "/elsewhere/dir/"]) if kind == "abs" else "/other/%d" % rng.randrange(50)
 
 
 def gen_block(rng, targets, override=None):
@@ -125,6 +125,8 @@ def spec_entry(base, b):
     host/port None = this server ('+' or absent); num None = not numbered by this block."""
     d = dict(b["fields"])
     path = d["Path"]
+    if path.endswith("/"):
+        path = path[:-1]        # selectors never end with a slash (the server normalises every selector so)
     override = path.startswith("./") or path.startswith("~/")
     sel = base + "/" + path[2:] if override else path
     ab = d.get("Abstract")
@@ -155,6 +157,8 @@ def spec_apply(entries, base, blocks):
                 e["host"] = s["host"]
             if "Port" in s["fields"]:
                 e["port"] = s["port"]
+        elif s["override"] and s["type"] in ("X", "-"):
+            continue        # nothing there (any more) to hide
         else:
             out.append({k: s[k] for k in ("selector", "type", "name", "host", "port", "num", "abstract")})
     return out
